@@ -27,7 +27,7 @@ def generate(ctx):
     rng = ctx.rng
     cases = []
     for i in range(ctx.budget(140, 1300)):
-        schema = gen.gen_schema(rng, 4)
+        schema = gen.spice_names(rng, gen.gen_schema(rng, 4))
         n = rng.randint(0, 7 if ctx.tier == "quick" else 12)
         rows_g = gen.gen_rows(rng, schema, n, max_len=5, null_p=0.3)
         if i % 40 == 0:
